@@ -32,7 +32,14 @@ func post_ParseChannel(res0 *security.Channel) bool { return res0 != nil }
 //@ assume (*github.com/emitter-io/emitter/internal/message.Trie).Subscribe iface
 //@ assume (*github.com/emitter-io/emitter/internal/message.Trie).Unsubscribe iface
 //@ assume (*github.com/emitter-io/emitter/internal/message.Trie).Lookup iface post=post_Trie_Lookup
-func post_Trie_Lookup(res0 message.Subscribers) bool { return res0 != nil }
+func post_Trie_Lookup(res0 message.Subscribers) bool {
+	// a SET of subscribers keyed by the hash of their id: no nil member (AddUnique refuses nil: C01), and one
+	// subscriber sits under one key only
+	return res0 != nil && vs.ForallKey(res0, func(k uint32) bool { return !vs.Has(res0, k) || res0[k] != nil }) &&
+		vs.ForallKey2(res0, func(k1, k2 uint32) bool {
+			return k1 == k2 || !vs.Has(res0, k1) || !vs.Has(res0, k2) || res0[k1] != res0[k2]
+		})
+}
 
 // message.New keeps channel and payload as given and stores nothing by default (its id layout is C19's subject)
 //@ assume github.com/emitter-io/emitter/internal/message.New iface post=post_message_New
@@ -165,7 +172,7 @@ func post_OnUnsubscribe_auth(s *Service, res0 *errors.Error) bool {
 // ---------------------------------------------------------------------------------------------------------
 // OnPublish (C02, C07, C11)
 
-//@ verify (*Service).OnPublish pre=pre_OnPublish post=post_OnPublish_reject,post_OnPublish_auth,post_OnPublish_store,post_OnPublish_msg props=C02,C07,C11
+//@ verify (*Service).OnPublish pre=pre_OnPublish post=post_OnPublish_reject,post_OnPublish_auth,post_OnPublish_store,post_OnPublish_msg,post_OnPublish_exclude props=C02,C07,C11
 func pre_OnPublish(s *Service, c service.Conn, packet *mqtt.Publish) bool {
 	return pre_Service(s) && c != nil && packet != nil
 }
@@ -206,6 +213,23 @@ func post_OnPublish_msg(s *Service, packet *mqtt.Publish, res0 *errors.Error) bo
 	return p >= 0 && vs.TraceArg[*message.Message](p, 1) == msg && vs.SameBytes(msg.Payload, packet.Payload) && vs.SameBytes(msg.Channel, ch.Channel)
 }
 
+func post_OnPublish_exclude(s *Service, c service.Conn, res0 *errors.Error) bool {
+	// the filter handed to the fan-out keeps the publisher itself out exactly when the channel carries me=0
+	// (the filter is the closure OnPublish built: it is applied to the publishing connection here)
+	if res0 != nil || specIsRequest() {
+		return true
+	}
+	x, p := vs.TraceFind("Channel).Exclude"), vs.TraceFind("Service).Publish")
+	if x < 0 || x > p || vs.TraceCount("Channel).Exclude") != 1 {
+		return false
+	}
+	filter := vs.TraceArg[func(message.Subscriber) bool](p, 2)
+	if vs.TraceRet[bool](x, 0) {
+		return !filter(c)
+	}
+	return filter(c) == (c.ID() != "")
+}
+
 // ---------------------------------------------------------------------------------------------------------
 // OnLastWill (C08, C07): publishes exactly one message iff a will was supplied, its topic parses static, and the
 // key allows publishing (write, not extendable); otherwise nothing
@@ -218,4 +242,53 @@ func post_OnLastWill(s *Service, ev *event.Connection, res0 bool) bool {
 	}
 	return ev != nil && ev.WillFlag && specAuthorizedFor(security.AllowWrite) && vs.TraceCount("Service).Publish") == 1 &&
 		vs.TraceRet[*security.Channel](vs.TraceFind("ParseChannel"), 0).ChannelType == security.ChannelStatic
+}
+
+// ---------------------------------------------------------------------------------------------------------
+// The fan-out (C02: "it receives it once ... and the publisher did not exclude itself with me=0").
+//
+// Service.Publish asks the trie ONCE for the subscribers of the message's ssid, passing the caller's filter on
+// unchanged, and sends the message to each subscriber the trie returned exactly once - the same *Message, to
+// nobody else. The loop ranges over a map: explored for result sets of up to two subscribers (stated bounded).
+
+//@ assume (github.com/emitter-io/emitter/internal/message.ID).Ssid iface
+//@ assume (*github.com/emitter-io/emitter/internal/message.Message).Size iface
+
+//@ verify (*Service).Publish pre=pre_Publish post=post_Publish_lookup,post_Publish_sends props=C02
+//@ loop (*Service).Publish 0 unroll 2 bounded
+func pre_Publish(s *Service, m *message.Message) bool { return pre_Service(s) && m != nil }
+func post_Publish_lookup(s *Service, m *message.Message) bool {
+	l := vs.TraceFind("Trie).Lookup")
+	return l >= 0 && vs.TraceCount("Trie).Lookup") == 1 && vs.TraceCount("ID).Ssid") == 1 &&
+		vs.TraceFind("ID).Ssid") < l && vs.TraceArg[*message.Trie](l, 0) == s.trie
+}
+func specSendTo(k int) message.Subscriber { // the subscriber the k-th Send went to
+	return vs.TraceArg[message.Subscriber](vs.TraceFindNth("Subscriber).Send", k), 0)
+}
+func post_Publish_sends(s *Service, m *message.Message) bool {
+	l := vs.TraceFind("Trie).Lookup")
+	subs := vs.TraceRet[message.Subscribers](l, 0)
+	n := vs.TraceCount("Subscriber).Send")
+	// every Send carries this message to a member of the set the trie returned ...
+	sound := vs.Forall(0, n, func(k int) bool {
+		e := vs.TraceFindNth("Subscriber).Send", k)
+		return e > l && vs.TraceArg[*message.Message](e, 1) == m &&
+			!vs.ForallKey(subs, func(key uint32) bool { return !vs.Has(subs, key) || subs[key] != specSendTo(k) })
+	})
+	// ... every member of that set got one ...
+	complete := vs.ForallKey(subs, func(key uint32) bool {
+		return !vs.Has(subs, key) || vs.Exists(0, n, func(k int) bool { return specSendTo(k) == subs[key] })
+	})
+	// ... and nobody got it twice
+	once := vs.Forall(0, n, func(k int) bool {
+		return vs.Forall(0, k, func(j int) bool { return specSendTo(j) != specSendTo(k) })
+	})
+	return sound && complete && once
+}
+
+// The filter OnPublish hands to the fan-out: a subscriber is skipped exactly when its id is the excluded one ...
+//@ verify (*Service).OnPublish$1 pre=pre_OnPublish_filter post=post_OnPublish_filter props=C02
+func pre_OnPublish_filter(s message.Subscriber) bool { return s != nil }
+func post_OnPublish_filter(s message.Subscriber, exclude string, res0 bool) bool {
+	return res0 == (s.ID() != exclude)
 }
